@@ -84,7 +84,7 @@ impl Scenario for C03 {
         ]
     }
     fn required_probes(&self, _tier: Tier) -> Vec<&'static str> {
-        vec!["probe:iv-override-applied"]
+        vec!["probe:iv-override-applied", "probe:signature-component-two-leading-zero-bytes"]
     }
     fn adopts(&self, v: &crate::world::Violation) -> bool {
         // in these plans every delivery crosses backends: a rejected or differently decoded
@@ -104,6 +104,36 @@ impl Scenario for C03 {
         let fk = b.family_keys(f, false).unwrap();
         // v3: a principal whose public key the verifiers import from compressed and uncompressed SEC1
         let known = if f == 3 { b.p384_known() } else { None };
+        // v3: signatures whose r or s has several leading zero bytes (fixture nonces / messages; the
+        // aws-lc signer takes the scripted nonce through hook H-lc-k), read by every node
+        if f == 3 && b.rng.chance(1, 3) {
+            if let Some(lc) = nodes.iter().position(|n| *n == Bk::V3Lc) {
+                let now = Ns(b.now_ns);
+                let rs = crate::fixtures::p384_short_r_nonces();
+                let ss = crate::fixtures::p384_short_s();
+                if !rs.is_empty() && !ss.is_empty() {
+                    let k = rs[b.rng.usize_below(rs.len())].clone();
+                    let tok = b.tok_slot();
+                    let n_pl = b.rng.usize_below(60);
+                    let payload = b.bytes(n_pl);
+                    let sd = b.ev_seed();
+                    b.push(Step::Seal { tok, node: lc, key: fk.secret, purpose: Purp::Public, claims: ClaimsSpec::Raw { bytes: payload }, footer: FootSpec::Unit, aad: Bytes::empty(), nonce: None, alias: false, rng: RngSpec::Script { draws: vec![k], seed: sd }, now_ns: now });
+                    for node in 0..nodes.len() {
+                        b.push(Step::Deliver { tok, node, key: fk.public, purpose: None, faults: vec![], pk: Some(crate::backend::PayloadKind::Raw), fk: Some(crate::backend::FootKind::Bytes), validator: VSpec::None, alias: false, now_ns: now, pair_with: None });
+                    }
+                    let (d, k, msg) = ss[b.rng.usize_below(ss.len())].clone();
+                    let (sk, pk) = (b.key_slot(), b.key_slot());
+                    b.push(Step::KeyFromRaw { slot: sk, family: 3, kind: Kind::Secret, bytes: Bytes::hex(&hex::decode(&d).unwrap_or_default()) });
+                    b.push(Step::PublicOf { slot: pk, from: sk, node: lc });
+                    let tok = b.tok_slot();
+                    let sd = b.ev_seed();
+                    b.push(Step::Seal { tok, node: lc, key: sk, purpose: Purp::Public, claims: ClaimsSpec::Raw { bytes: Bytes::hex(msg.as_bytes()) }, footer: FootSpec::Unit, aad: Bytes::empty(), nonce: None, alias: false, rng: RngSpec::Script { draws: vec![k], seed: sd }, now_ns: now });
+                    for node in 0..nodes.len() {
+                        b.push(Step::Deliver { tok, node, key: pk, purpose: None, faults: vec![], pk: Some(crate::backend::PayloadKind::Raw), fk: Some(crate::backend::FootKind::Bytes), validator: VSpec::None, alias: false, now_ns: now, pair_with: None });
+                    }
+                }
+            }
+        }
         let n = 3 + b.rng.usize_below(if tier == Tier::Thorough { 12 } else { 7 });
         for _ in 0..n {
             let purpose = if matches!(f, 1 | 3) && b.rng.chance(3, 4) { Purp::Local } else if b.rng.bool() { Purp::Local } else { Purp::Public };
